@@ -19,6 +19,9 @@ and reports through ctx:
 import collections, fcntl, hashlib, json, os, random, re, subprocess, sys, time, glob
 
 VERIF = os.path.dirname(os.path.dirname(os.path.abspath(__file__)))
+# evidence/ and replays/ live in /verif; a run against a scratch clone (WHATSHAP_REPO, see tools/seedtest.sh) writes them
+# elsewhere, so that the evidence kept in /verif only ever comes from /repo itself
+OUTROOT = os.environ.get("WHVERIF_OUTROOT") or VERIF
 LEAN = os.path.join(VERIF, "lean")
 WHMODEL = os.path.join(LEAN, ".lake", "build", "bin", "whmodel")
 ALLOWED_AXIOMS = {"propext", "Classical.choice", "Quot.sound"}
@@ -280,8 +283,8 @@ def run_check(prop, tier, seed, module, replay=None, level="proof", need_overlay
     """The decision procedure of DESIGN §2. Returns the exit code."""
     from . import wsbuild
     t0 = time.time()
-    os.makedirs(os.path.join(VERIF, "evidence"), exist_ok=True)
-    os.makedirs(os.path.join(VERIF, "replays"), exist_ok=True)
+    os.makedirs(os.path.join(OUTROOT, "evidence"), exist_ok=True)
+    os.makedirs(os.path.join(OUTROOT, "replays"), exist_ok=True)
     try:
         try:
             overlay = wsbuild.ensure() if need_overlay else None
@@ -334,7 +337,7 @@ def run_check(prop, tier, seed, module, replay=None, level="proof", need_overlay
     replay_path = None
     if new_fails:
         what, case, key = new_fails[0]
-        replay_path = os.path.join(VERIF, "replays", f"{prop}-{tier}-{seed}.json")
+        replay_path = os.path.join(OUTROOT, "replays", f"{prop}-{tier}-{seed}.json")
         json.dump({"property": prop, "kind": "property-predicate-failed-on-implementation", "what": what, "key": key,
                    "case": case, "n_failures": len(new_fails),
                    "other_failures": [{"what": w, "key": k} for w, _, k in new_fails[1:20]]},
@@ -342,7 +345,7 @@ def run_check(prop, tier, seed, module, replay=None, level="proof", need_overlay
         lines.append(f"VIOLATION property={prop} replay={replay_path}")
         rc = 1
     elif ctx.disagreements or not proof_ok:
-        replay_path = os.path.join(VERIF, "replays", f"{prop}-{tier}-{seed}.json")
+        replay_path = os.path.join(OUTROOT, "replays", f"{prop}-{tier}-{seed}.json")
         if ctx.disagreements:
             op, case, impl, model = ctx.disagreements[0]
             body = {"kind": "correspondence-broken", "correspondence": op, "case": case, "implementation": impl,
@@ -392,7 +395,7 @@ def run_check(prop, tier, seed, module, replay=None, level="proof", need_overlay
         "wall_s": round(time.time() - t0, 2),
         "violations": len(new_fails) + (1 if (rc == 1 and not new_fails) else 0),
     }
-    json.dump(ev, open(os.path.join(VERIF, "evidence", f"{prop}.json"), "w"), indent=1, default=str)
+    json.dump(ev, open(os.path.join(OUTROOT, "evidence", f"{prop}.json"), "w"), indent=1, default=str)
     for l in lines:
         print(l)
     print(f"[{prop}] tier={tier} seed={seed} evaluations={ctx.n_eval} distinct_nontrivial={len(ctx.keys)} "
@@ -420,7 +423,7 @@ def supervise(prop, tier, seed, level, t0):
                 case = json.load(open(infl))
             except Exception:
                 case = None
-        replay_path = os.path.join(VERIF, "replays", f"{prop}-{tier}-{seed}.json")
+        replay_path = os.path.join(OUTROOT, "replays", f"{prop}-{tier}-{seed}.json")
         json.dump({"property": prop, "kind": "implementation-crashed-the-interpreter", "returncode": rc,
                    "what": "the implementation aborted / crashed the Python interpreter on this input", "key": "crash",
                    "case": case}, open(replay_path, "w"), indent=1, default=str)
@@ -430,7 +433,7 @@ def supervise(prop, tier, seed, level, t0):
                            "explanation": "the implementation crashed the interpreter; see replay", "obligations": 0, "discharged": 0,
                            "checker_cmd": "n/a (crash)", "trusted_base": []},
               "wall_s": round(time.time() - t0, 2), "violations": 1}
-        json.dump(ev, open(os.path.join(VERIF, "evidence", f"{prop}.json"), "w"), indent=1, default=str)
+        json.dump(ev, open(os.path.join(OUTROOT, "evidence", f"{prop}.json"), "w"), indent=1, default=str)
         if any(k == "crash" for k, _ in known):
             print(f"KNOWN-FINDING: property={prop} key=crash " + next(t for k, t in known if k == "crash"))
             return 0
